@@ -33,6 +33,10 @@ func (Engine) Property() string { return "C17" }
 
 func (Engine) Gen(seed uint64, idx int, tier string) interface{} {
 	r := simrt.NewRand(simrt.Mix(seed, 0x17, uint64(idx)))
+	gen.Scale = 1
+	if tier == "thorough" && r.Chance(1, 2) {
+		gen.Scale = 2
+	}
 	return &Scenario{Prog: gen.GenCont(r, harness.Excluded("containers")), Order: simrt.MapOrder{Kind: r.Intn(4), K: r.Uint64()}}
 }
 
